@@ -532,8 +532,7 @@ class ProblemsSim:
     def probe_names(self, prop):
         return ["call_on_shared_unreseeded_stream", "group_opens_at_first_term", "grouping_parenthesis",
                 "negative_coefficient", "decimal_coefficient", "power_emitted", "non_plus_operator",
-                "documented_error_request", "direct_get_rand_vars_gave_up",
-                "retry_exhausted_under_biased_stream", "templates_gave_up"]
+                "documented_error_request", "direct_get_rand_vars_gave_up", "templates_gave_up"]
 
     def components(self, prop):
         return {
